@@ -50,7 +50,11 @@ QT = [
 ]
 
 
-COMPUTED_COLS = ["bind::nodeset", "body::ref", "body::nodeset", "instance::id", "bind::type", "body::appearance", "bind::jr:preload", "instance::custom"]  # (instance::jr:template would turn the node into a template by the author's own wish)
+COMPUTED_COLS = ["bind::nodeset", "body::ref", "body::nodeset", "instance::id", "bind::type", "body::appearance", "bind::jr:preload", "instance::custom",
+                 "instance::tag", "instance::name", "body::tag", "bind::tag"]  # names of the XML writer's own keyword arguments: they may not rename the node
+EMPTY_CONTENT = {"none": [], "xml-external": [{"type": "xml-external", "name": "xe9"}], "csv-external": [{"type": "csv-external", "name": "ce9"}],
+                 "both": [{"type": "xml-external", "name": "xe9"}, {"type": "csv-external", "name": "ce9"}]}
+EMPTY_LOGIC = {"none": {}, "relevant": {"relevant": "1 = 1"}, "required": {"required": "yes"}, "readonly+bind": {"read_only": "yes", "bind::custom": "v"}}  # (instance::jr:template would turn the node into a template by the author's own wish)
 
 
 def blocks(tier):
@@ -69,6 +73,9 @@ def blocks(tier):
     # custom columns whose name is an attribute the converter computes itself (bind nodeset, control ref, ...)
     for fi in range(sum(1 for _ in forests_upto(4 if tier == "quick" else 5, 3))):
         yield ("col", fi)
+    # a section without rows of its own (or holding only external-instance rows), with and without logic cells, at every row boundary
+    for fi in range(sum(1 for _ in forests_upto(3 if tier == "quick" else 4, 3))):
+        yield ("empty", fi)
     # sections/include API: one section included at 1..2 places of the main form
     for fi in range(sum(1 for _ in forests_upto(4 if tier == "quick" else 5, 3))):
         yield ("include", fi)
@@ -104,6 +111,14 @@ def expand(block, tier):
             for sub in itertools.combinations(qs, r):
                 for sec in (0, 1, 2):
                     yield {"f": fj, "include": list(sub), "sec": sec}
+        return
+    if block[0] == "empty":
+        nrows = len(build({"f": fj, "feat": 0, "st": 0, "dev": None})[0]["survey"])
+        for pos in range(nrows + 1):
+            for kind in ("group", "repeat"):
+                for content in EMPTY_CONTENT:
+                    for logic in EMPTY_LOGIC:
+                        yield {"f": fj, "feat": 0, "st": 0, "dev": None, "empty": [pos, kind, content, logic]}
         return
     if block[0] == "col":
         nodes = flatten(forest, NAMES)
@@ -206,6 +221,9 @@ def build(case):
         i, col, tgt = case["col"]
         row = [r for r in rows if "name" in r][i]
         row[col] = ("/" + "/".join(nodes[tgt]["path"])) if tgt is not None else "/data/nothing_here"
+    if case.get("empty"):
+        pos, kind, content, logic = case["empty"]
+        rows[pos:pos] = [{"type": f"begin {kind}", "name": "z9", "label": "Z", **EMPTY_LOGIC[logic]}, *[dict(r) for r in EMPTY_CONTENT[content]], {"type": f"end {kind}"}]
     wb = {"survey": rows, "choices": [dict(c) for c in CHOICES]}
     if case["st"] == 1:
         wb["survey"] = [{"type": "audit", "name": "audit"}, *rows]
